@@ -2,11 +2,24 @@
 from props import gxcommon as G
 
 
+FILE_REPLAY = '''from pycparser import c_parser
+SRC = 'void f(void){ if (x) y;\\n# 1 "other.h"\\n z; }\\n'
+print(SRC)
+ast = c_parser.CParser().parse(SRC, 'f.c')
+iff = ast.ext[0].body.block_items[0]
+print('If node at', iff.coord, '- the `if` token is on line 1 of f.c')
+print('REPRODUCED' if iff.coord.file != 'f.c' else 'NOT-REPRODUCED')
+'''
+
+
 def run(tier, seed):
     res = G.gx(None, ["coord"], "C11/gx", tier)
     from pyvc.smt_props import run_functions
     import contracts.parser_core  # noqa
-    res.add(run_functions(["CParser._coord", "CParser._tok_coord", "CParser._parse_error"], "C11/smt", tier))
+    res.add(run_functions(["CParser._coord", "CParser._tok_coord", "CParser._parse_error", "CParser._tok_coord#file"], "C11/smt", tier))
+    for o in res.obs:
+        if o.name.startswith("C11/smt/CParser._tok_coord#file/post") and o.status == "refuted":
+            o.replay = FILE_REPLAY
     try:
         import contracts.lexer as LX
         from props import lexreplay
